@@ -195,7 +195,7 @@ def do_report():
     stats = {}
     for sid, r in zip(ids, res):
         meta = json.load(open(os.path.join(SEEDED, sid, "meta.json")))
-        rnd = "11" if "-r11-" in sid else "10" if "-r10-" in sid else "9" if "-r9-" in sid else "8" if "-r8-" in sid else "7" if "-r7-" in sid else "6" if "-r6-" in sid else "5" if "-r5-" in sid else "4" if "-r4-" in sid else "3" if "-r3-" in sid else "2" if "-r2-" in sid else "1"
+        rnd = "12" if "-r12-" in sid else "11" if "-r11-" in sid else "10" if "-r10-" in sid else "9" if "-r9-" in sid else "8" if "-r8-" in sid else "7" if "-r7-" in sid else "6" if "-r6-" in sid else "5" if "-r5-" in sid else "4" if "-r4-" in sid else "3" if "-r3-" in sid else "2" if "-r2-" in sid else "1"
         fo = meta.get("first_outcome") or meta.get("first_recorded_outcome") or {}
         blind = fo.get("result", "n/a")
         if rnd == "1":
